@@ -295,8 +295,8 @@ def cold_work(shard, tier, viols, stats, counters, samples):
         for name in rng.sample(sorted(C.number_modules()), 6):
             nums += C.corpus(name, limit=1, rng=rng)
         spec = {'numbers': nums, 'nthreads': rng.choice((2, 4, 8)), 'seed': '%s:%d' % (shard['name'], t), 'yieldp': rng.choice((0.0, 0.02, 0.1))}
-        os.makedirs(os.path.join(C.VERIF, 'out', 'C18'), exist_ok=True)
-        with tempfile.NamedTemporaryFile('w', suffix='.json', delete=False, dir=os.path.join(C.VERIF, 'out', 'C18')) as f:
+        C.scratch_dir('C18')
+        with tempfile.NamedTemporaryFile('w', suffix='.json', delete=False, dir=C.scratch_dir('C18')) as f:
             json.dump(spec, f)
             path = f.name
         try:
@@ -357,8 +357,8 @@ def replay(w):
         # a race: give it a few attempts
         here = os.path.dirname(os.path.abspath(__file__))
         for _ in range(6):
-            os.makedirs(os.path.join(C.VERIF, 'out', 'C18'), exist_ok=True)
-            with tempfile.NamedTemporaryFile('w', suffix='.json', delete=False, dir=os.path.join(C.VERIF, 'out', 'C18')) as f:
+            C.scratch_dir('C18')
+            with tempfile.NamedTemporaryFile('w', suffix='.json', delete=False, dir=C.scratch_dir('C18')) as f:
                 json.dump(w['trial'], f)
                 path = f.name
             p = subprocess.run([sys.executable, '-B', os.path.join(here, 'wsgitrial.py'), path], stdout=subprocess.PIPE, stderr=subprocess.PIPE, timeout=600)
